@@ -42,6 +42,46 @@ def contig_size(p):
     return 24 + p
 
 
+# Name families of the extended scope (case key "fam"; absent = the original alphabet above, signatures unchanged).
+# Each family: genome order, a name that is NOT in the genome, a name for with_ignored_added, and the class label that
+# failures of its cases carry as a signature suffix (one label per class of name alphabets, not per family).
+_LONG = "HiC.scaffold.assembly.v2."  # 25 characters in common
+FAMILIES = {
+    # > 8 characters, first 8 in common, natural (not lexicographic) order, scaffold1 is a prefix of scaffold10/11
+    "scaffold": {"names": ["scaffold1", "scaffold2", "scaffold10", "scaffold11", "scaffold20"], "unknown": "scaffold3",
+                 "ign": "scaffoldM", "cls": "long-names"},
+    # equal width, first 8 (9) characters in common, lexicographic == natural order
+    "fixedw": {"names": ["contig0001", "contig0002", "contig0010", "contig0011", "contig0100"], "unknown": "contig0003",
+               "ign": "contig000M", "cls": "long-names"},
+    # 25 characters in common (beyond any 8/16/24 byte word), natural order
+    "long25": {"names": [_LONG + x for x in ("1", "2", "10", "11", "3")], "unknown": _LONG + "4", "ign": _LONG + "M",
+               "cls": "long-names"},
+    # names that are prefixes of each other across the 8 character boundary, in an order that is neither lexicographic nor by length
+    "nested": {"names": ["abcdefghi", "a", "abcdefghij", "abcdefgh", "ab"], "unknown": "abcdefg", "ign": "abcdefghijk",
+               "cls": "prefix-names"},
+    # short names in natural order, which is not the lexicographic order ('chr2' > 'chr10')
+    "natural": {"names": ["chr2", "chr10", "chr11", "chr20", "chr21"], "unknown": "chr1", "ign": "chrM", "cls": "natural-order"},
+    # genomes of many contigs (natural order chr1 .. chr40): order discrepancies that jump back over many contigs
+    "many": {"names": ["chr%d" % i for i in range(1, 41)], "unknown": "chr0", "ign": "chrM", "cls": "many-contigs"},
+}
+
+
+def fam_names(fam):
+    return FAMILIES[fam]["names"] if fam else NAMES
+
+
+def fam_unknown(fam):
+    return FAMILIES[fam]["unknown"] if fam else UNKNOWN
+
+
+def fam_ign(fam):
+    return FAMILIES[fam]["ign"] if fam else IGN_ADDED
+
+
+def fam_suffix(fam):
+    return ":" + FAMILIES[fam]["cls"] if fam else ""
+
+
 # ----------------------------------------------------------------------------------------------- reference model
 def model(G, ignored, seq):
     """G: genome order (names), seq: names of the data groups in data order.
@@ -75,16 +115,16 @@ def expected_outputs(G, entries):
 
 
 # ----------------------------------------------------------------------------------------------- genome construction
-def genome_layout(gcfg, n):
+def genome_layout(gcfg, n, fam=None):
     """-> (dict items given to the constructor, expected genome order G [(name,size)], ignored set, ctor kwargs)"""
-    base = [(NAMES[p], contig_size(p)) for p in range(n)]
+    base = [(fam_names(fam)[p], contig_size(p)) for p in range(n)]
     with_us = base[:1] + [(UNDERSCORE, UNDERSCORE_SIZE)] + base[1:]
     if gcfg == "plain":
         return base, base, set()
-    if gcfg == "sorted":
-        return list(reversed(base)), base, set()
+    if gcfg == "sorted":  # sort_names=True: "a simple alphabetic ordering" (the original alphabet is listed in that order)
+        return list(reversed(base)), sorted(base), set()
     if gcfg == "ignM":
-        return base, base, {IGN_ADDED}
+        return base, base, {fam_ign(fam)}
     if gcfg == "ign_":
         return with_us, base, {UNDERSCORE}
     if gcfg == "inc_":
@@ -95,17 +135,17 @@ def genome_layout(gcfg, n):
 _GENOMES = {}
 
 
-def build_genome(gcfg, n):
-    key = (gcfg, n, os.environ.get("BIONUMPY_REPO", ""))
+def build_genome(gcfg, n, fam=None):
+    key = (gcfg, n, os.environ.get("BIONUMPY_REPO", ""), fam)
     if key in _GENOMES:
         return _GENOMES[key]
     import bionumpy as bnp
     from bionumpy.genomic_data.genome_context import ignore_underscores
-    items, G, ignored = genome_layout(gcfg, n)
+    items, G, ignored = genome_layout(gcfg, n, fam)
     if gcfg == "sorted":
         genome = bnp.Genome.from_dict(dict(items), sort_names=True)
     elif gcfg == "ignM":
-        genome = bnp.Genome.from_dict(dict(items)).with_ignored_added([IGN_ADDED])
+        genome = bnp.Genome.from_dict(dict(items)).with_ignored_added([fam_ign(fam)])
     elif gcfg == "ign_":
         genome = bnp.Genome.from_dict(dict(items), filter_function=ignore_underscores)
     else:
@@ -114,9 +154,9 @@ def build_genome(gcfg, n):
     return _GENOMES[key]
 
 
-def universe(gcfg, n):
-    _, G, ignored = genome_layout(gcfg, n)
-    return [g for g, _ in G] + [UNKNOWN] + sorted(ignored)
+def universe(gcfg, n, fam=None):
+    _, G, ignored = genome_layout(gcfg, n, fam)
+    return [g for g, _ in G] + [fam_unknown(fam)] + sorted(ignored)
 
 
 # ----------------------------------------------------------------------------------------------- input construction
@@ -204,8 +244,10 @@ def sig(base, kind, tag):
     return "%s%s" % (base, tag) if tag else "%s:%s" % (base, kind)
 
 
-def judge(col, base, case, G, ignored, groups, outcome, tag="", flat=False, zero_rows_elided=False):
-    """outcome: ('raised', exc name, text) | ('done', [(label|None, [uids])], problems)"""
+def judge(col, base, case, G, ignored, groups, outcome, tag="", flat=False, zero_rows_elided=False, suffix=""):
+    """outcome: ('raised', exc name, text) | ('done', [(label|None, [uids])], problems)
+    suffix: class label of the extended scope (name family), appended to every signature except the one region that fails
+    for the reason already recorded for the original alphabet (generator not resumed after the last contig)"""
     Gn = [g for g, _ in G]
     if tag:
         base = base.split(":")[0].split(".")[0]
@@ -217,14 +259,15 @@ def judge(col, base, case, G, ignored, groups, outcome, tag="", flat=False, zero
             # one reason for the whole region (the generator is not resumed after the last contig): one signature per
             # entry point and kind, whatever the observer / input form
             base = base.split(":")[0].split(".")[0] + ":zip"
-        col.check(ok, sig(base, "no-error:%s:%s" % (m[1], m[2]), tag), case,
+            suffix = ""
+        col.check(ok, sig(base, "no-error:%s:%s" % (m[1], m[2]), tag) + suffix, case,
                   "data groups %r against genome %r (ignored %r) must raise; completed with %r"
                   % ([g for g, _ in groups], Gn, sorted(ignored), outcome[1] if not ok else None))
         return ok
     if outcome[0] == "raised":
         if base.startswith("genome_api."):  # one cause shows through every observer: entry point + input form + exception
             base = "genome_api:" + base.split(":")[1]
-        col.fail(sig(base, "spurious-error:" + outcome[1], tag), case,
+        col.fail(sig(base, "spurious-error:" + outcome[1], tag) + suffix, case,
                  "valid input (groups %r, genome %r) raised %s" % ([g for g, _ in groups], Gn, outcome[2]))
         return False
     got, problems = outcome[1], outcome[2]
@@ -235,18 +278,18 @@ def judge(col, base, case, G, ignored, groups, outcome, tag="", flat=False, zero
         exp = [(g, us) for g, us in exp if us]
     ok = True
     if problems:
-        ok = col.check(False, sig(base, "malformed-output", tag), case, "; ".join(problems[:3])) and ok
+        ok = col.check(False, sig(base, "malformed-output", tag) + suffix, case, "; ".join(problems[:3])) and ok
     if len(got) != len(exp):
-        col.fail(sig(base, "wrong-output-count", tag), case, "got %d outputs %r, expected %d %r" % (len(got), got, len(exp), exp))
+        col.fail(sig(base, "wrong-output-count", tag) + suffix, case, "got %d outputs %r, expected %d %r" % (len(got), got, len(exp), exp))
         return False
     all_got = sorted(u for _, us in got for u in us)
     all_exp = sorted(u for _, us in exp for u in us)
     if all_got != all_exp:
-        col.fail(sig(base, "entries-lost-or-duplicated", tag), case, "got %r expected %r" % (got, exp))
+        col.fail(sig(base, "entries-lost-or-duplicated", tag) + suffix, case, "got %r expected %r" % (got, exp))
         return False
     for (gl, gu), (el, eu) in zip(got, exp):
         if gu != eu or (gl is not None and el is not None and gl != el):
-            col.fail(sig(base, "misattributed", tag), case, "got %r expected %r" % (got, exp))
+            col.fail(sig(base, "misattributed", tag) + suffix, case, "got %r expected %r" % (got, exp))
             return False
     return ok
 
@@ -261,7 +304,7 @@ def capture(fn):
 # ----------------------------------------------------------------------------------------------- contract A
 def eval_iter_chromosomes(col, case, tmp=None):
     from bionumpy.datatypes import Interval
-    genome, G, ignored = build_genome(case["gcfg"], case["n"])
+    genome, G, ignored = build_genome(case["gcfg"], case["n"], case.get("fam"))
     groups = [tuple(g) for g in case["groups"]]
     entries = entries_of(groups)
     consumer = case["consumer"]
@@ -284,7 +327,8 @@ def eval_iter_chromosomes(col, case, tmp=None):
         return ("done", [(None, uids_of_rows(rows_of(t), entries, problems)) for t in tables], problems)
 
     col.case(case, nontrivial=bool(groups), contract="iter_chromosomes")
-    return judge(col, "iter_chromosomes:%s" % consumer, case, G, ignored, groups, capture(go), tag)
+    return judge(col, "iter_chromosomes:%s" % consumer, case, G, ignored, groups, capture(go), tag,
+                 suffix=fam_suffix(case.get("fam")))
 
 
 # ----------------------------------------------------------------------------------------------- contract B
@@ -298,7 +342,7 @@ OBSERVERS = {  # name -> (table kind, consumer class, flat)
 
 def eval_genome_api(col, case, tmp):
     import bionumpy as bnp
-    genome, G, ignored = build_genome(case["gcfg"], case["n"])
+    genome, G, ignored = build_genome(case["gcfg"], case["n"], case.get("fam"))
     groups = [tuple(g) for g in case["groups"]]
     entries = entries_of(groups)
     observer, inp = case["observer"], case["input"]
@@ -340,7 +384,7 @@ def eval_genome_api(col, case, tmp):
     out = capture(go)
     # (track.sum carries the set of entries only; for valid input the expected concatenation is ascending in uid)
     base = "genome_api.%s:%s:%s" % (observer, inp, consumer)
-    return judge(col, base, case, G, ignored, groups, out, tag, flat=flat)
+    return judge(col, base, case, G, ignored, groups, out, tag, flat=flat, suffix=fam_suffix(case.get("fam")))
 
 
 # ----------------------------------------------------------------------------------------------- contract C
@@ -349,7 +393,7 @@ def eval_multistream(col, case, tmp=None):
     from bionumpy.streams import MultiStream
     from bionumpy.streams.multistream import SequenceSizes
     n = case["n"]
-    G = [(NAMES[p], contig_size(p)) for p in range(n)]
+    G = [(fam_names(case.get("fam"))[p], contig_size(p)) for p in range(n)]
     groups = [tuple(g) for g in case["groups"]]
     entries = entries_of(groups)
     consumer = case["consumer"]
@@ -375,7 +419,7 @@ def eval_multistream(col, case, tmp=None):
         return ("done", out, problems)
 
     col.case(case, nontrivial=bool(groups), contract="multistream")
-    return judge(col, "multistream:%s" % consumer, case, G, set(), groups, capture(go))
+    return judge(col, "multistream:%s" % consumer, case, G, set(), groups, capture(go), suffix=fam_suffix(case.get("fam")))
 
 
 # ----------------------------------------------------------------------------------------------- contract D
@@ -393,8 +437,9 @@ def eval_similarity(col, case, tmp=None):
     from bionumpy.arithmetics import forbes, jaccard
     from bionumpy.datatypes import ChromosomeSize
     n = case["n"]
-    G = [(NAMES[p], contig_size(p)) for p in range(n)]
+    G = [(fam_names(case.get("fam"))[p], contig_size(p)) for p in range(n)]
     Gn = [g for g, _ in G]
+    suffix = fam_suffix(case.get("fam"))
     ga = [tuple(g) for g in case["a_groups"]]
     gb = [tuple(g) for g in case["b_groups"]]
     ea, eb = sim_entries(ga, "a"), sim_entries(gb, "b")
@@ -412,11 +457,13 @@ def eval_similarity(col, case, tmp=None):
     ma, mb = model(Gn, set(), [g for g, _ in ga]), model(Gn, set(), [g for g, _ in gb])
     for which, m in (("a", ma), ("b", mb)):
         if m[0] == "error":
-            sbase = "similarity" if (which == "b" and m[2] == "late") else base  # operand b is the one zipped behind a
-            return col.check(out[0] == "raised", "%s:%s:no-error:%s:%s" % (sbase, which, m[1], m[2]), case,
+            known_region = which == "b" and m[2] == "late"
+            sbase = "similarity" if known_region else base  # operand b is the one zipped behind a
+            return col.check(out[0] == "raised",
+                             "%s:%s:no-error:%s:%s" % (sbase, which, m[1], m[2]) + ("" if known_region else suffix), case,
                              "operand %s groups %r against %r must raise; returned %r" % (which, case[which + "_groups"], Gn, out[1]))
     if out[0] == "raised":
-        col.fail("%s:spurious-error:%s" % (base, out[1]), case, out[2])
+        col.fail("%s:spurious-error:%s" % (base, out[1]) + suffix, case, out[2])
         return False
     # set-based oracle
     A = {(nm, x) for nm, s, e in ea for x in range(s, e)}
@@ -425,7 +472,7 @@ def eval_similarity(col, case, tmp=None):
     a_, b_, c_ = len(A & B), len(A - B), len(B - A)
     d_ = N - a_ - b_ - c_
     exp = a_ * N / ((a_ + b_) * (a_ + c_)) if func == "forbes" else a_ / (N - d_)
-    return col.check(math.isclose(out[1], exp, rel_tol=1e-9, abs_tol=1e-12), "%s:wrong-value" % base, case,
+    return col.check(math.isclose(out[1], exp, rel_tol=1e-9, abs_tol=1e-12), "%s:wrong-value" % base + suffix, case,
                      "got %r expected %r" % (out[1], exp))
 
 
@@ -434,7 +481,7 @@ def eval_left_join(col, case, tmp=None):
     from bionumpy.streams import groupby
     from bionumpy.streams.left_join import left_join
     n = case["n"]
-    G = [(NAMES[p], contig_size(p)) for p in range(n)]
+    G = [(fam_names(case.get("fam"))[p], contig_size(p)) for p in range(n)]
     groups = [tuple(g) for g in case["groups"]]
     entries = entries_of(groups)
 
@@ -460,11 +507,15 @@ def eval_left_join(col, case, tmp=None):
         return ("done", out, problems)
 
     col.case(case, nontrivial=bool(groups), contract="left_join")
-    return judge(col, "left_join:exhaust", case, G, set(), groups, capture(go))
+    return judge(col, "left_join:exhaust", case, G, set(), groups, capture(go), suffix=fam_suffix(case.get("fam")))
 
 
 # ----------------------------------------------------------------------------------------------- contract F
 GB_NAMES = ["chr1", "chr10", "chr2", "c", "chr1_alt"]
+
+
+def gb_names(fam):
+    return (FAMILIES[fam]["names"][:5] + [FAMILIES[fam]["unknown"]]) if fam else GB_NAMES
 
 
 def eval_groupby(col, case, tmp=None):
@@ -477,11 +528,13 @@ def eval_groupby(col, case, tmp=None):
     groups = [tuple(g) for g in case["groups"]]
     entries = entries_of(groups)
     exp = [(nm, [u for x, u, _ in entries if x == nm]) for nm, _ in groups]
+    fam = case.get("fam")
+    labels = list(reversed(gb_names(fam)))
 
     def conv(tbl, part):
         if case["keys"] == "enc":
-            enc = StringEncoding(list(reversed(GB_NAMES)))
-            codes = np.array([list(reversed(GB_NAMES)).index(nm) for nm, _, _ in part])
+            enc = StringEncoding(labels)
+            codes = np.array([labels.index(nm) for nm, _, _ in part])
             return replace(tbl, chromosome=EncodedArray(codes, enc))
         return tbl
 
@@ -503,13 +556,14 @@ def eval_groupby(col, case, tmp=None):
     col.case(case, nontrivial=len(groups) > 0, contract="groupby")
     out = capture(go)
     base = "groupby:%s:%s" % (case["keys"], "table" if case["input"] == "table" else "stream")
+    suffix = fam_suffix(fam)
     if out[0] == "raised":
-        col.fail("%s:spurious-error:%s" % (base, out[1]), case, out[2])
+        col.fail("%s:spurious-error:%s" % (base, out[1]) + suffix, case, out[2])
         return False
     ok = True
     if out[2]:
-        ok = col.check(False, base + ":malformed-output", case, "; ".join(out[2][:3]))
-    return col.check(out[1] == exp, base + ":wrong-groups", case, "got %r expected %r" % (out[1], exp)) and ok
+        ok = col.check(False, base + ":malformed-output" + suffix, case, "; ".join(out[2][:3]))
+    return col.check(out[1] == exp, base + ":wrong-groups" + suffix, case, "got %r expected %r" % (out[1], exp)) and ok
 
 
 EVAL = {"iter_chromosomes": eval_iter_chromosomes, "genome_api": eval_genome_api, "multistream": eval_multistream,
@@ -744,6 +798,290 @@ def cases_similarity(thorough, full_upto):
                                 yield case
 
 
+# ----------------------------------------------------------------------------------------------- extended scope: name families
+SMALL_FAMS = ("scaffold", "natural", "nested", "fixedw", "long25")
+
+
+def name_plans(seq, Gn, ignored, thorough):
+    """-> (groups, chunkings, zip too?) for one group sequence of a name family.  Accepted sequences: all-ones (+ two entries
+    in the first group for <= 2 groups; thorough: plans()) x {one chunk, singletons, every 2-split}: neighbours of the data
+    order meet inside one chunk and across a chunk border.  Rejected sequences: one chunk (+ singletons for <= 2 groups)."""
+    k = len(seq)
+    valid = model(Gn, ignored, seq)[0] == "ok"
+    if thorough:
+        for gi, groups, chs in plans(seq, Gn, ignored, True, 4):
+            yield groups, chs, True
+        return
+    pats = [tuple([1] * k)]
+    if valid and 1 <= k <= 2:
+        pats.append(tuple([2] + [1] * (k - 1)))
+    for pat in pats:
+        groups = [[nm, c] for nm, c in zip(seq, pat)]
+        N = sum(pat)
+        if N == 0:
+            chs = [[]]
+        elif valid:
+            chs = dedupe([[N], [1] * N] + [[i, N - i] for i in range(1, N)])
+        else:
+            chs = dedupe([[N]] + ([[1] * N] if k <= 2 else []))
+        yield groups, chs, (valid or k <= 2)
+
+
+def fam_sequences(fam, gcfg, n, thorough):
+    """all sequences of distinct names over genome + unknown (+ ignored); quick tier at 4 contigs: the sequences the genome accepts
+    plus every sequence of <= 2 groups"""
+    _, G, ignored = genome_layout(gcfg, n, fam)
+    Gn = [g for g, _ in G]
+    uni = universe(gcfg, n, fam)
+    if thorough or n <= 3:
+        maxlen = None if (gcfg == "plain" or n <= 3) else 3
+        return Gn, ignored, list(sequences(uni, maxlen))
+    seqs = list(sequences(uni, 2))
+    for k in range(3, n + 1):
+        seqs.extend(list(c) for c in itertools.combinations(Gn, k))
+    return Gn, ignored, seqs
+
+
+def fams_at(n, thorough):
+    """quick tier: every family at 2 and 3 contigs, two of them at 4"""
+    return SMALL_FAMS if (thorough or n <= 3) else ("scaffold", "natural")
+
+
+def fam_genomes(fam, thorough):
+    if thorough:
+        return [(g, n) for g in ("plain", "sorted", "ignM") for n in (1, 2, 3, 4) if not (g == "sorted" and n == 1)] + [("plain", 5)]
+    out = [("plain", 2), ("plain", 3)]
+    if fam in fams_at(4, thorough):
+        out += [("plain", 4), ("sorted", 3), ("ignM", 3)]
+    return out
+
+
+def cases_fam_iter(thorough):
+    for gcfg_n in itertools.zip_longest(*[[(fam,) + gn for gn in fam_genomes(fam, thorough)] for fam in SMALL_FAMS]):
+        for item in gcfg_n:
+            if item is None:
+                continue
+            fam, gcfg, n = item
+            Gn, ignored, seqs = fam_sequences(fam, gcfg, n, thorough and n <= 4)
+            for seq in seqs:
+                for groups, chs, zip_too in name_plans(seq, Gn, ignored, thorough and n <= 3):
+                    N = sum(k for _, k in groups)
+                    for ci, chunks in enumerate(chs):
+                        for consumer in ("exhaust", "zip") if (zip_too and (thorough or ci == 0)) else ("exhaust",):
+                            yield {"contract": "iter_chromosomes", "fam": fam, "gcfg": gcfg, "n": n, "groups": groups,
+                                   "chunks": chunks, "input": "stream", "consumer": consumer}
+                    if N > 0 and (thorough or len(groups) <= 2):
+                        yield {"contract": "iter_chromosomes", "fam": fam, "gcfg": gcfg, "n": n, "groups": groups, "chunks": [N],
+                               "input": "table", "consumer": "exhaust"}
+
+
+def cases_fam_genome_api(thorough):
+    for n in ((2, 3, 4) if thorough else (2, 3)):
+        for gcfg in (("plain", "sorted", "ignM") if thorough else ("plain",)):
+            for fam in (SMALL_FAMS if (thorough or n <= 2) else ("scaffold", "natural", "nested")):
+                Gn, ignored, seqs = fam_sequences(fam, gcfg, n, thorough)
+                for seq in seqs:
+                    if n == 4 and len(seq) > 3 and model(Gn, ignored, seq)[0] != "ok":
+                        continue
+                    for pi, (groups, chs, zip_too) in enumerate(name_plans(seq, Gn, ignored, False)):
+                        N = sum(k for _, k in groups)
+                        for oi, observer in enumerate(("intervals.pileup_data", "track.data", "intervals.compute", "track.sum")):
+                            if oi >= 2 and not thorough and (pi > 0 or len(seq) > 2):
+                                continue
+                            for chunks in (chs if (oi == 0 or (oi == 1 and thorough)) else chs[:2] if oi == 1 else chs[:1]):
+                                yield {"contract": "genome_api", "fam": fam, "gcfg": gcfg, "n": n, "groups": groups,
+                                       "chunks": chunks, "input": "stream", "observer": observer}
+                            if pi == 0 and N > 0 and oi < (2 if thorough else 1) and (thorough or model(Gn, ignored, seq)[0] == "ok"):
+                                yield {"contract": "genome_api", "fam": fam, "gcfg": gcfg, "n": n, "groups": groups,
+                                       "chunks": [N], "input": "file", "observer": observer}
+
+
+def cases_fam_multistream(thorough):
+    for n in ((1, 2, 3, 4, 5) if thorough else (2, 3, 4)):
+        for fam in fams_at(n, thorough):
+            Gn = fam_names(fam)[:n]
+            _, _, seqs = fam_sequences(fam, "plain", n, thorough and n <= 4)
+            for seq in seqs:
+                for groups, chs, zip_too in name_plans(seq, Gn, set(), thorough and n <= 3):
+                    N = sum(k for _, k in groups)
+                    for ci, chunks in enumerate(chs):
+                        for consumer in ("exhaust", "zip") if (zip_too and (thorough or ci == 0)) else ("exhaust",):
+                            yield {"contract": "multistream", "fam": fam, "n": n, "groups": groups, "chunks": chunks,
+                                   "input": "stream", "sizes": ("dict", "chromsize", "seqsizes")[ci % 3], "consumer": consumer}
+                    if N > 0 and (thorough or len(groups) <= 2):
+                        yield {"contract": "multistream", "fam": fam, "n": n, "groups": groups, "chunks": [N], "input": "table",
+                               "sizes": "dict", "consumer": "exhaust"}
+
+
+def cases_fam_left_join(thorough):
+    for n in ((1, 2, 3, 4, 5) if thorough else (2, 3, 4)):
+        for fam in fams_at(n, thorough):
+            Gn = fam_names(fam)[:n]
+            _, _, seqs = fam_sequences(fam, "plain", n, thorough and n <= 4)
+            for seq in seqs:
+                for pi, (groups, chs, zip_too) in enumerate(name_plans(seq, Gn, set(), thorough and n <= 3)):
+                    N = sum(k for _, k in groups)
+                    if pi == 0:
+                        yield {"contract": "left_join", "fam": fam, "n": n, "groups": groups, "chunks": [N] if N else [],
+                               "input": "pure"}
+                        if N > 0:
+                            yield {"contract": "left_join", "fam": fam, "n": n, "groups": groups, "chunks": [N], "input": "table"}
+                    for chunks in chs:
+                        yield {"contract": "left_join", "fam": fam, "n": n, "groups": groups, "chunks": chunks, "input": "stream"}
+
+
+def cases_fam_groupby(thorough):
+    """thorough: sequences of <= 4 of the 6 names, sizes {1,2}^k (k <= 3), every chunking of N <= 4 entries.  quick: <= 2 of the
+    6 names and 3 of the first 4; all-ones with {table, one chunk, singletons, every 2-split}, one doubled group with
+    {one chunk, every 2-split} on string keys"""
+    for maxlen in ((1, 2, 3, 4) if thorough else (1, 2, 3)):
+        for fam in SMALL_FAMS:
+            pool = gb_names(fam) if (thorough or maxlen <= 2) else gb_names(fam)[:4]
+            for seq in itertools.permutations(pool, maxlen):
+                for gi, groups in enumerate(group_variants(list(seq), maxlen <= (3 if thorough else 2))):
+                    N = sum(k for _, k in groups)
+                    ones = N == len(groups)
+                    if not thorough and not ones and N > len(groups) + 1:
+                        continue
+                    for keys in ("str", "enc") if (thorough or fam in ("scaffold", "nested")) else ("str",):
+                        if thorough:
+                            chs = chunkings(N, 4)
+                        elif ones:
+                            chs = dedupe([[N], [1] * N] + [[i, N - i] for i in range(1, N)]) if keys == "str" else [[N]]
+                        else:
+                            chs = dedupe([[N]] + [[i, N - i] for i in range(1, N)]) if keys == "str" else []
+                        if thorough or ones:
+                            yield {"contract": "groupby", "fam": fam, "groups": groups, "chunks": [N], "input": "table", "keys": keys}
+                        for chunks in chs:
+                            yield {"contract": "groupby", "fam": fam, "groups": groups, "chunks": chunks, "input": "stream",
+                                   "keys": keys}
+
+
+def cases_fam_similarity(thorough):
+    if not thorough:
+        return
+    n = 3
+    for fam in SMALL_FAMS:
+        Gn = fam_names(fam)[:n]
+        fixed = [[Gn[p], 1 + (p % 2)] for p in range(n)]
+        for func in ("forbes", "jaccard"):
+            for varied in ("a", "b"):
+                other = "b" if varied == "a" else "a"
+                for seq in sequences(Gn + [fam_unknown(fam)]):
+                    if not seq:
+                        continue
+                    groups = [[nm, 1] for nm in seq]
+                    N = len(seq)
+                    for chunks in ([[N], [1] * N] if N > 1 else [[N]]):
+                        case = {"contract": "similarity", "fam": fam, "func": func, "n": n,
+                                "sizes": "dict" if len(chunks) == 1 else "chromsize"}
+                        case[varied + "_groups"], case[varied + "_chunks"], case[varied + "_input"] = groups, chunks, "stream"
+                        case[other + "_groups"], case[other + "_chunks"], case[other + "_input"] = fixed, [sum(k for _, k in fixed)], "stream"
+                        yield case
+
+
+# ----------------------------------------------------------------------------------------------- extended scope: many contigs
+def many_positions(n):
+    """positions at the ends of the genome and around a distance of 10 / 11 / 12 / 16 / 32 contigs from either end"""
+    return sorted({p for p in (0, 1, 2, 9, 10, 11, 12, 15, 16, 17, 31, 32, 33, n - 34, n - 33, n - 18, n - 17, n - 13, n - 12, n - 11,
+                               n - 10, n - 3, n - 2, n - 1) if 0 <= p < n})
+
+
+def many_sequences(n, thorough):
+    """position sequences over a genome of n contigs (n stands for the unknown name): every single group, every ordered pair
+    (n <= 24; boundary positions above), every ordered triple of boundary positions, the full genome, every other contig,
+    the full genome with one contig moved to the end / to the front"""
+    seen = set()
+
+    def emit(seq):
+        t = tuple(seq)
+        if t in seen:
+            return False
+        seen.add(t)
+        return True
+
+    B = many_positions(n)
+    P = list(range(n)) if n <= 24 else B
+    for i in P + [n]:
+        if emit([i]):
+            yield [i]
+    pairs = [(i, j) for i in P + [n] for j in P + [n] if i != j]
+    pairs.sort(key=lambda ij: (-abs(ij[0] - ij[1]), ij))  # the long jumps first
+    for i, j in pairs:
+        if emit([i, j]):
+            yield [i, j]
+    T = B if thorough else [p for p in B if p in (0, 1, n - 12, n - 11, n - 2, n - 1)]
+    for tr in itertools.permutations(T, 3):
+        if emit(tr):
+            yield list(tr)
+    full = list(range(n))
+    for seq in (full, full[::2], full[1::2], full[1:] + [0], full[:1] + full[2:] + [1], [n - 1] + full[:-1], full[:n - 2] + [n]):
+        if emit(seq):
+            yield seq
+
+
+def cases_many(thorough):
+    fam = "many"
+    names = fam_names(fam)
+    gens = []
+    for n in ((12, 13, 16, 24, 40) if thorough else (13,)):
+        for gcfg in (("plain", "ignM") if thorough else ("plain",)):
+            gens.append(_cases_many(fam, names, gcfg, n, thorough))
+    while gens:
+        for g in list(gens):
+            c = next(g, None)
+            if c is None:
+                gens.remove(g)
+            else:
+                yield c
+
+
+def _cases_many(fam, names, gcfg, n, thorough):
+    _, G, ignored = genome_layout(gcfg, n, fam)
+    Gn = [g for g, _ in G]
+    label = Gn + [fam_unknown(fam)]
+    for pseq in many_sequences(n, thorough):
+        seq = [label[p] for p in pseq]
+        if ignored and len(seq) in (2, 3):  # an ignored group between the first and the second
+            seq = seq[:1] + sorted(ignored) + seq[1:]
+        if len(seq) > 14:
+            seq = seq[:14]  # unique ids must stay below the smallest contig size
+        groups = [[nm, 1] for nm in seq]
+        N = len(groups)
+        valid = model(Gn, ignored, seq)[0] == "ok"
+        chs = dedupe([[N], [1] * N] + ([[N // 2, N - N // 2]] if N > 2 else [])) if (valid or thorough) else [[N]]
+        for ci, chunks in enumerate(chs):
+            for consumer in ("exhaust", "zip") if (thorough or ci == 0) else ("exhaust",):
+                yield {"contract": "iter_chromosomes", "fam": fam, "gcfg": gcfg, "n": n, "groups": groups, "chunks": chunks,
+                       "input": "stream", "consumer": consumer}
+            for observer in (("intervals.pileup_data",) if ci > 0 else
+                             (("intervals.pileup_data", "intervals.compute")[sum(pseq) % 2],) if (len(pseq) == 2 and not thorough) else
+                             ("intervals.pileup_data", "track.data", "intervals.compute", "track.sum")):
+                yield {"contract": "genome_api", "fam": fam, "gcfg": gcfg, "n": n, "groups": groups, "chunks": chunks,
+                       "input": "stream", "observer": observer}
+            if gcfg == "plain":
+                for consumer in ("exhaust", "zip") if (thorough or ci == 0) else ("exhaust",):
+                    yield {"contract": "multistream", "fam": fam, "n": n, "groups": groups, "chunks": chunks, "input": "stream",
+                           "sizes": ("dict", "chromsize", "seqsizes")[ci % 3], "consumer": consumer}
+                yield {"contract": "left_join", "fam": fam, "n": n, "groups": groups, "chunks": chunks, "input": "stream"}
+        if gcfg == "plain":
+            yield {"contract": "left_join", "fam": fam, "n": n, "groups": groups, "chunks": [N], "input": "pure"}
+
+
+def extended_cases(tier):
+    """round-robin over the generators of the extended scope (name families, many contigs)"""
+    thorough = tier != "quick"
+    gens = [cases_many(thorough), cases_fam_iter(thorough), cases_fam_genome_api(thorough), cases_fam_multistream(thorough),
+            cases_fam_left_join(thorough), cases_fam_groupby(thorough), cases_fam_similarity(thorough)]
+    while gens:
+        for g in list(gens):
+            case = next(g, None)
+            if case is None:
+                gens.remove(g)
+            else:
+                yield case
+
+
 def enumerate_cases(tier):
     """round-robin over the contracts, so that a time-out thins every contract instead of dropping the last ones"""
     thorough = tier != "quick"
@@ -829,6 +1167,18 @@ def run(tier="quick", seed=0):
         stop = False
         for case in WITNESSES:
             EVAL[case["contract"]](col, case, tmp)
+        # extended scope first, under its own budget (the original enumeration below keeps the budget it had)
+        import time
+        t_ext, ext_budget, ext_done = time.time(), (10 if not thorough else 60), True
+        for case in extended_cases(tier):
+            EVAL[case["contract"]](col, case, tmp)
+            if col.evaluations % 32 == 0 and time.time() - t_ext > ext_budget:
+                ext_done = False
+                col.exhaustive = False
+                break
+        col.bounds["extended_scope_evaluations"] = col.evaluations - len(WITNESSES)
+        col.bounds["extended_scope_complete"] = ext_done
+        col.budget_s += time.time() - t_ext
         for case in enumerate_cases(tier):
             EVAL[case["contract"]](col, case, tmp)
             if col.evaluations % 64 == 0 and col.out_of_time():
